@@ -53,6 +53,9 @@ class FixEmptySequenceComparison(
                                     else cst.UnaryOperation(
                                         operator=cst.Not(),
                                         expression=comp_var,
+                                        # `(x == []) * 3` must not become `not x * 3`
+                                        lpar=original_node.lpar,
+                                        rpar=original_node.rpar,
                                     )
                                 )
                             case _:
@@ -62,6 +65,9 @@ class FixEmptySequenceComparison(
                                     else cst.UnaryOperation(
                                         operator=cst.Not(),
                                         expression=comp_var,
+                                        # `(x == []) * 3` must not become `not x * 3`
+                                        lpar=original_node.lpar,
+                                        rpar=original_node.rpar,
                                     )
                                 )
 
